@@ -179,11 +179,11 @@ class ScipyLinprog(BaseOptimizationLibrary):
         problem: OptimizationProblem,
         message: Any,
         status: Any,
-        output_opt: Mapping[str, RealArray],
-        jac_opt: Mapping[str, RealArray],
-        x_0: RealArray,
-        x_opt: RealArray,
-        result: Any,
+        output_opt: Mapping[str, RealArray] | None = None,
+        jac_opt: Mapping[str, RealArray] | None = None,
+        x_0: RealArray | None = None,
+        x_opt: RealArray | None = None,
+        result: Any = None,
     ) -> OptimizationResult:
         """
         Args:
@@ -192,7 +192,13 @@ class ScipyLinprog(BaseOptimizationLibrary):
             x_0: The initial design value.
             x_opt: The optimal design value.
             result: A result specific to this library.
+                If ``None``,
+                e.g. when a termination criterion stopped the driver before the solver,
+                the result is built from the database.
         """  # noqa: D205 D212
+        if result is None:
+            return super()._get_result(problem, message, status)
+
         f_opt = output_opt[problem.objective.name]
         constraint_names = problem.constraints.get_names()
         constraint_values = {name: output_opt[name] for name in constraint_names}
